@@ -43,6 +43,8 @@ SHAPES = {
     'csv-old-bak':        {'layout': 'old', 'rules': 'csv', 'bak': True},
     'csv-old-strayrules': {'layout': 'old', 'rules': 'csv', 'stray': True},
     'csv-old-output':     {'layout': 'old', 'rules': 'csv', 'output': True},
+    # a merchants.rules the user has begun to write that holds no loadable rule yet (variables and a transform; a rule with a typo in it)
+    'csv-old-stray-norules': {'layout': 'old', 'rules': 'csv', 'stray': 'norules', 'only': ('migrate', 'init')},
     'csv-old-views':      {'layout': 'old', 'rules': 'csv', 'views': True},
     'csv-new':            {'layout': 'new', 'rules': 'csv'},
     'rules-old':          {'layout': 'old', 'rules': 'rules', 'output': True},
@@ -59,12 +61,15 @@ SHAPES = {
     'csv-old-manybaks':   {'layout': 'old', 'rules': 'csv', 'manybaks': 11, 'only': ('migrate', 'init')},
     # the settings name the legacy CSV explicitly (merchants_file: config/merchant_categories.csv)
     'csv-old-explicit-csv': {'layout': 'old', 'rules': 'csv', 'explicit_csv': True, 'only': ('migrate', 'init')},
+    # ... and two settings files side by side (the default one and settings-2024.yaml); the migration is run with the second, the budget is used with both
+    'csv-old-oddname-twosettings': {'layout': 'old', 'rules': 'csv', 'cfg_name': 'cfg-2025', 'altsettings': True, 'both_settings': True, 'only': ('migrate',)},
+    'csv-old-twosettings': {'layout': 'old', 'rules': 'csv', 'altsettings': True, 'both_settings': True, 'only': ('migrate',)},
     'csv-old-oddname':    {'layout': 'old', 'rules': 'csv', 'cfg_name': 'cfg-2025', 'only': ('migrate',)},
 }
 COMMANDS = ['migrate', 'init', 'update']
 QUICK = [('csv-old', 'migrate'), ('csv-old-bak', 'init'), ('csv-old-output', 'update'), ('csv-new', 'migrate'), ('csv-old-commented-key', 'migrate'),
          ('rules-old-absdata', 'update'), ('csv-old', 'migrate', 'other-filesystem'), ('csv-old-empty-key', 'migrate'), ('csv-old-altsettings', 'migrate'),
-         ('csv-old-commented-key', 'init'), ('rules-old-symlink-data', 'update'), ('csv-old-oddname', 'migrate'), ('csv-old-manybaks', 'migrate'), ('csv-old-explicit-csv', 'migrate'), ('csv-old-explicit-csv', 'init')]
+         ('csv-old-commented-key', 'init'), ('rules-old-symlink-data', 'update'), ('csv-old-oddname', 'migrate'), ('csv-old-manybaks', 'migrate'), ('csv-old-explicit-csv', 'migrate'), ('csv-old-explicit-csv', 'init'), ('csv-old-stray-norules', 'migrate'), ('csv-old-oddname-twosettings', 'migrate')]
 OTHER_FS = '/dev/shm'        # a file system other than the one holding the system temp directory (if this machine has one)
 
 
@@ -107,13 +112,20 @@ def build(root, shape):
             f.write(VIEWS)
     with open(os.path.join(cfg, ALT if sp.get('altsettings') else 'settings.yaml'), 'w') as f:
         f.write(s)
+    if sp.get('both_settings'):
+        with open(os.path.join(cfg, 'settings.yaml'), 'w') as f:
+            f.write(s)
     if sp.get('bak'):
         with open(os.path.join(cfg, 'merchant_categories.csv.bak'), 'w') as f:
             f.write('Pattern,Merchant,Category,Subcategory\nOLD,Precious Old Backup,Old,Rules\n')
     for i in range(sp.get('manybaks', 0)):
         with open(os.path.join(cfg, 'merchant_categories.csv.bak' + ('.%d' % i if i else '')), 'w') as f:
             f.write('Pattern,Merchant,Category,Subcategory\nOLD%d,Backup number %d,Old,Rules\n' % (i, i))
-    if sp.get('stray'):
+    if sp.get('stray') == 'norules':
+        with open(os.path.join(cfg, 'merchants.rules'), 'w') as f:
+            f.write(rnd_free_choice(shape, ['# work in progress\nis_large = amount > 500\nfield.description = regex_replace(field.description, "^APLPAY ", "")\n',
+                                            '# my rules (one typo so far)\n[Mine]\nmatch: contains("MINE"\ncategory: Mine\n\n[Other]\nmatch: contains("OTHER")\ncategory: Other\n']))
+    elif sp.get('stray'):
         with open(os.path.join(cfg, 'merchants.rules'), 'w') as f:
             f.write('# my own unreferenced rules\n[Mine]\nmatch: contains("MINE")\ncategory: Mine\n')
     if sp.get('output'):
@@ -171,10 +183,34 @@ def other_filesystem():
 ALT = 'settings-2024.yaml'
 
 
-def classification(root):
+def _classification_default(root, odd):
+    p = B.tally(root, 'up', *odd, '--format', 'json', '-v', '-q')
+    if p.returncode != 0:
+        return {'failed': (p.stderr or p.stdout).strip().splitlines()[-1][:120] if (p.stderr or p.stdout).strip() else 'exit %d' % p.returncode}
+    try:
+        js = B.json_from_stdout(p.stdout)
+    except Exception:
+        return {'failed': 'unparsable output'}
+    m = {}
+    for me in js['merchants']:
+        for d in (me.get('raw_descriptions') or {}):
+            m[d] = [me['category'], me['subcategory']] if me['category'] != 'Unknown' else ['Unknown', 'Unknown']
+    return {'map': m}
+
+
+def classification(root, _both=False):
     """`tally up` as the user would run it from the budget root (auto-detected config dir), fresh process."""
     alt = ['--settings', ALT] if (os.path.exists(os.path.join(root, 'config', ALT)) or os.path.exists(os.path.join(root, 'tally', 'config', ALT))) else []
     odd = [n for n in ('cfg-2025',) if os.path.isdir(os.path.join(root, n))]      # a config folder tally cannot find by itself is named on the command line
+    cfgd = next((d for d in (os.path.join(root, 'config'), os.path.join(root, 'tally', 'config'), os.path.join(root, 'cfg-2025')) if os.path.isdir(d)), None)
+    if not alt and cfgd and os.path.exists(os.path.join(cfgd, ALT)):
+        alt = ['--settings', ALT]
+    if _both and alt and cfgd and os.path.exists(os.path.join(cfgd, 'settings.yaml')):
+        # a budget kept with two settings files is used with both: they classify alike (before, during and after a migration run with either)
+        one, two = classification(root, _both=False), _classification_default(root, odd)
+        if one != two:
+            return {'failed': 'the two settings files of the budget classify differently', 'with settings-2024.yaml': one, 'with settings.yaml': two}
+        return one
     p = B.tally(root, 'up', *odd, *alt, '--format', 'json', '-v', '-q')
     if p.returncode != 0:
         return {'failed': (p.stderr or p.stdout).strip().splitlines()[-1][:120] if (p.stderr or p.stdout).strip() else 'exit %d' % p.returncode}
@@ -232,7 +268,7 @@ def judge_point(rec, shape, cmd, k, mode, eff_k, baseline, tmp, log):
         return
     # (b)/(c) classification now, and after a plain re-run of the same command
     rec.count('classification_checks')
-    o1 = classification(root)
+    o1 = classification(root, _both=bool(SHAPES[shape].get('both_settings')))
     if o1 == baseline:
         rec.count('classifies_as_before_immediately')
         # an interrupted migration may have left a converted merchants.rules next to the CSV that is still in use.  The user keeps working
@@ -240,12 +276,12 @@ def judge_point(rec, shape, cmd, k, mode, eff_k, baseline, tmp, log):
         sp = SHAPES[shape]
         cfgd = os.path.join(root, 'tally', 'config') if sp['layout'] == 'new' else os.path.join(root, sp.get('cfg_name', 'config'))
         csvp, rulesp = os.path.join(cfgd, 'merchant_categories.csv'), os.path.join(cfgd, 'merchants.rules')
-        if mode.startswith('crash') and cmd in ('migrate', 'init') and sp['rules'] == 'csv' and not sp.get('stray') and os.path.exists(csvp) and os.path.exists(rulesp) \
+        if mode.startswith('crash') and cmd in ('migrate', 'init') and sp['rules'] == 'csv' and not sp.get('stray') and not sp.get('both_settings') and os.path.exists(csvp) and os.path.exists(rulesp) \
                 and 'map' in baseline and baseline['map'].get('SOME UNKNOWN VENDOR') == ['Unknown', 'Unknown'] and csv_in_use(cfgd):
             with open(csvp, 'a') as f:
                 f.write('SOME UNKNOWN,Added Later,Added,Cat,\n')
             B.tally(root, *args)
-            o3 = classification(root)
+            o3 = classification(root, _both=bool(SHAPES[shape].get('both_settings')))
             want = dict(baseline['map'], **{'SOME UNKNOWN VENDOR': ['Added', 'Cat']})
             rec.count('rule_added_between_interrupted_and_repeated_run_checks')
             if o3.get('map') != want:
@@ -259,7 +295,7 @@ def judge_point(rec, shape, cmd, k, mode, eff_k, baseline, tmp, log):
         return
     rec.count('reruns')
     p2 = B.tally(root, *args)
-    o2 = classification(root)
+    o2 = classification(root, _both=bool(SHAPES[shape].get('both_settings')))
     if o2 != baseline:
         rec.violation('not-recoverable-by-rerun:%s/%s/%s' % (cmd, step, mode),
                       f'{shape}: after {mode} at effect {k} ({eff_k}) tally up gives {o1}; after re-running `tally {" ".join(args)}` it gives {o2}; '
@@ -310,7 +346,7 @@ def run(rec, shard, nshards, t):
             shutil.rmtree(root, ignore_errors=True)
             os.makedirs(root)
             build(root, shape)
-            baseline = classification(root)
+            baseline = classification(root, _both=bool(SHAPES[shape].get('both_settings')))
             shutil.rmtree(os.path.join(root, 'output'), ignore_errors=True) if not SHAPES[shape].get('output') else None
             root2 = os.path.join(tmp, 'rec')
             shutil.rmtree(root2, ignore_errors=True)
@@ -322,7 +358,7 @@ def run(rec, shard, nshards, t):
                 rec.count('effects_in_sequences', len(effects))
                 rec.sample({'shape': shape, 'command': cmd, 'effects': ['%d %s %s%s' % (e['n'], e['kind'], e['path'], ' -> ' + e['path2'] if e.get('path2') else '') for e in effects]})
                 # the un-faulted run itself must leave the budget classifying as before
-                o = classification(root2)
+                o = classification(root2, _both=bool(SHAPES[shape].get('both_settings')))
                 rec.case()
                 if o != baseline:
                     rec.violation('unfaulted-run-changes-classification:' + cmd, f'{shape}: after a normal `{cmd}` tally up gives {o}, before {baseline}',
@@ -348,7 +384,7 @@ def replay(rec, case):
         root = os.path.join(tmp, 'base')
         os.makedirs(root)
         build(root, case['shape'])
-        baseline = classification(root)
+        baseline = classification(root, _both=bool(SHAPES[case['shape']].get('both_settings')))
         judge_point(rec, case['shape'], case['cmd'], case['k'], case['mode'], case.get('effect') or {'kind': '?', 'path': ''}, baseline, tmp, log)
     finally:
         shutil.rmtree(tmp, ignore_errors=True)
